@@ -58,4 +58,21 @@ PROPS = {
                       'Model validated against XDSRouter.Route on generated listeners, tables and calls.',
         'level_note': 'Trusted: Lean kernel; Go regexp (parameter); metainfo.GetAllValues; correspondence harness. No facts are extracted for this property: the tie is the correspondence run.',
     },
+    'C20': {
+        'rule': 'environments: 15 fixed cases (each required variable missing/empty, domains, INSTANCE_IPS lists whose entries are textual prefixes/suffixes/extensions of the pod IP, '
+                'empty and non-string INSTANCE_IPS and NAMESPACE, invalid JSON) then random environments (variables present/absent/empty, 4 pod IPs incl. IPv6, 0-3 listed addresses, '
+                'extra keys, nested values, truncated JSON) through newBootstrapConfig with the process environment set; 3 managers built from environment-derived configs (node on every request); '
+                '2 child processes for the process-wide singleton (Init with a variable missing, SetXDSResourceManager twice then Init). Non-trivial: the metadata JSON is present and parses',
+        'assumptions': COMMON_ASSUME + [
+            'protojson.Unmarshal is external: the theorems quantify over its result (an error, or an object whose string values are kept and other values are opaque)',
+            'the pod IP contains no comma (hypothesis of instance_ips_member)',
+            'xds.Init against a reachable control plane is not exercised (no network): only the failing path and the first-wins singleton are',
+        ],
+        'level_text': 'Theorems for every environment and every parser result: the node id has the stated format; no/invalid metadata gives exactly {ISTIO_VERSION}; when INSTANCE_IPS is supplied '
+                      'the pod IP is an element of the comma-separated result (not merely a substring) and the supplied value is kept or extended by ",<ip>"; every other key is unchanged; a non-empty '
+                      'NAMESPACE string overrides the namespace used for name expansion; construction fails iff namespace, name or IP is empty, and then installs nothing; setting a manager twice keeps the first. '
+                      'The INSTANCE_IPS membership test, node-id format, default domain, key names and the order of the required-variable checks are re-read from bootstrap.go on every run (bridge facts_boot). '
+                      'Model validated against newBootstrapConfig, the requests of real managers and child processes.',
+        'level_note': 'Trusted: Lean kernel; protojson; os.Getenv; the extractor; the correspondence harness.',
+    },
 }
